@@ -2343,7 +2343,10 @@ class Slur(TimedObject):
         self.start_note = start_note
         self.end_note = end_note
         # maintain a list of attributes to update when cloning this instance
-        self._ref_attrs.extend(["start_note", "end_note"])
+        # (the private attributes: replacing references in a copy must not go
+        # through the property setters, which re-register the object with time
+        # points and append it to the notes' lists)
+        self._ref_attrs.extend(["_start_note", "_end_note"])
 
     @property
     def start_note(self):
